@@ -423,6 +423,8 @@ class Interp:
         if d[0] == "import":
             return self.models.module(d[1], self)
         _, m, n = d
+        if (m, n) in self.models.froms:
+            return self.models.froms[(m, n)]
         if m is not None and (m == "formak" or m.startswith("formak.")):
             # `from formak import common` or `from formak.exceptions import X`
             try:
@@ -1687,6 +1689,46 @@ class Interp:
             body = z3.substitute(g, *pairs)
             P.facts.append(z3.ForAll([j for _, j in pairs], z3.Implies(z3.And(*rng), z3.Not(body))))
         P.noraise.append((idx, n, [g for _, _, g, _ in raises]))
+
+    def replace_object(self, old, new):
+        """In-place mutation of a python list/dict that became symbolic: rebind every reference reachable from the frames."""
+        seen = set()
+
+        def walk(v, depth):
+            if depth > 6 or id(v) in seen:
+                return
+            seen.add(id(v))
+            if isinstance(v, SObj):
+                for k, x in list(v.fields.items()):
+                    if x is old:
+                        v.fields[k] = new
+                    else:
+                        walk(x, depth + 1)
+            elif isinstance(v, PyList):
+                for k, x in enumerate(v.items):
+                    if x is old:
+                        v.items[k] = new
+                    else:
+                        walk(x, depth + 1)
+            elif isinstance(v, PyDict):
+                for k, x in list(v.d.items()):
+                    if x is old:
+                        v.d[k] = new
+                    else:
+                        walk(x, depth + 1)
+            elif isinstance(v, (tuple, list)):
+                for x in v:
+                    walk(x, depth + 1)
+
+        for fr in self.frames:
+            f = fr
+            while f is not None:
+                for k, x in list(f.locals.items()):
+                    if x is old:
+                        f.locals[k] = new
+                    else:
+                        walk(x, 0)
+                f = f.enclosing
 
     # ----- loop summarisation (map rule) -----------------------------------
     def summarise_loop(self, target, bodies, it, kind):
